@@ -473,10 +473,13 @@ func c01Config(tp *simkit.Tape) c01Cfg {
 	c.Retry = tp.Chance(1, 3)
 	// the legacy batcher is the one batching option that combines with a persistent queue: hand-offs then carry
 	// records of several requests and a request may be split over several hand-offs
-	c.Batcher = tp.Chance(1, 4)
+	c.Batcher = tp.Chance(1, 3)
 	if c.Batcher {
 		c.BMax = int64(tp.Range(1, 3))
 		c.BMin = int64(tp.Range(0, int(c.BMax)))
+		if tp.Chance(1, 2) {
+			c.Retry = true // parts of one request that retry independently are where a request's outcome is combined
+		}
 	}
 	c.StartIndex = []uint64{0, 0, 254, 65534, 4294967294, 1<<53 - 2, 1<<62 - 1}[tp.Draw(7)]
 	n := tp.Range(3, 10)
